@@ -48,34 +48,31 @@ def r1_contraction(repo: Repo, rep):
             continue
         rep.check(R, dump(r.args[1]) == "self.output_space", fi.site(p.ret_node), fi.fq, "labelled with self.output_space", dump(r.args[1]), dump(r.args[1]))
         out = r.args[0]
-        ok = False
-        detail = dump(out)[:200]
-        if isinstance(out, ast.Call) and (attr_chain(out.func) == "torch.sum" or (isinstance(out.func, ast.Attribute) and out.func.attr == "sum")):
-            base = out.args[0] if attr_chain(out.func) == "torch.sum" else out.func.value
-            d = kwarg(out, "dim", 1 if attr_chain(out.func) == "torch.sum" else 0)
-            if isinstance(base, ast.BinOp) and isinstance(base.op, ast.Mult) and d is not None and dump(d) == "-1":
-                sides = [dump(base.left), dump(base.right)]
-                br = [s for s in sides if s == "self.branch.current_out.unsqueeze(1)"]
-                tr = [s for s in sides if s.startswith("self.trunk(") and ("unsqueeze(0)" in s or s == f"self.trunk({fi.params[1]})")]
-                tr2 = [s for s in sides if s.startswith("self.trunk(")]
-                ok = len(br) == 1 and len(tr2) == 1
-                # the trunk features may only be given a leading function axis
-                other = [x for x in REARRANGE if f".{x}(" in tr2[0]] if tr2 else []
-                ok = ok and not other
-        elif isinstance(out, ast.Call) and attr_chain(out.func) == "torch.einsum":
-            spec = out.args[0].value if out.args and isinstance(out.args[0], ast.Constant) else ""
-            # contraction of exactly the last index of both operands
-            try:
-                lhs, rhs = spec.replace(" ", "").split("->")
-                a, b = lhs.split(",")
-                ok = a[-1] == b[-1] and a[-1] not in rhs and set(rhs) == (set(a) | set(b)) - {a[-1]}
-            except ValueError:
-                ok = False
-        else:
-            uses = sorted({n.attr for n in ast.walk(out) if isinstance(n, ast.Attribute) and n.attr in REARRANGE})
-            rep.undecided(R, fi.site(p.ret_node), fi.fq, "sum(trunk * branch.unsqueeze(1), dim=-1) or an einsum over the neuron index", f"other construction using {uses}")
-            continue
-        rep.check(R, ok, fi.site(p.ret_node), fi.fq, "out = sum(trunk_out * branch.current_out.unsqueeze(1), dim=-1)", detail, detail)
+        from ..absdom.axes import AxesEval, NotAxes, Scrambled
+        four = [pol for g, pol, k in p.guards if "shape" in dump(g) and "< 4" in dump(g)]
+        trunk_axes = [("N",), ("D",), ("K",)] if (four and four[0]) else [("F",), ("N",), ("D",), ("K",)]
+
+        def atom(n, trunk_axes=trunk_axes):
+            if isinstance(n, ast.Call) and dump(n.func) == "self.trunk":
+                return trunk_axes
+            if isinstance(n, ast.Attribute) and dump(n) == "self.branch.current_out":
+                return [("F",), ("D",), ("K",)]
+            return None
+
+        def size_role(n, ev):
+            t = dump(n).replace(" ", "")
+            if t == "self.output_space.dim":
+                return "D"
+            return None
+        try:
+            axes = AxesEval(atom, size_role).ev(out)
+            want = [("F",), ("N",), ("D",)]
+            rep.check(R, axes == want, fi.site(p.ret_node), fi.fq, "output axes = (function, location, component): the neuron axis K is contracted, nothing else",
+                      f"axes {axes} from trunk {trunk_axes} x branch (F, D, K)", f"axes {axes}")
+        except Scrambled as err:
+            rep.violation(R, fi.site(p.ret_node), fi.fq, "output axes = (function, location, component)", str(err), str(err)[:200])
+        except NotAxes as err:
+            rep.undecided(R, fi.site(p.ret_node), fi.fq, "contraction decidable by the axis-role interpreter", str(err))
 
 
 def r2_reshape_agreement(repo: Repo, rep):
@@ -192,9 +189,6 @@ def r3_fast_path(repo: Repo, rep):
     for p in paths(f.node):
         if p.ret is not RAISE:
             rep.check(R, dump(p.ret) == f"linear.apply({f.params[1]}, self.weight, self.bias)", f.site(), f.fq, "TrunkLinear applies the Function to (input, weight, bias)", dump(p.ret), dump(p.ret))
-    fwd_src = ast.unparse(fw.node).replace(" ", "")
-    rep.check(R, "input.matmul(weight.transpose(-1,-2))" in fwd_src and "input=input[0]" in fwd_src and "expand(*size)" in fwd_src, fw.site(), fw.fq,
-              "forward: y = x[0] W^T (+ b), expanded over the copied leading axis", "construction changed" if "matmul" not in fwd_src else "ok", "forward shape")
 
 
 def r4_branch_cache(repo: Repo, rep):
@@ -292,12 +286,33 @@ def r5_meshgrid(repo: Repo, rep):
         if not ok:
             rep.undecided(R, fi.site(p.ret_node), fi.fq, "cat((params, points), dim=-1)", dump(cat)[:100])
             continue
-        a, b = (dump(x).replace(" ", "") for x in cat.args[0].elts)
-        par = "self.param_batch.as_tensor.unsqueeze(1).repeat(1,len(" + pts + "),1)"
-        pnt = pts + ".as_tensor.unsqueeze(0).repeat(len(self.param_batch),1,1)"
-        par_alt = "self.param_batch.as_tensor.unsqueeze(1).expand(-1,len(" + pts + "),-1)"
+        from ..absdom.axes import AxesEval, NotAxes, Scrambled
+
+        def atom(n, pts=pts):
+            t = dump(n)
+            if t in (f"{pts}.as_tensor", f"{pts}._t"):
+                return [("N",), ("C",)]
+            if t in ("self.param_batch.as_tensor", "self.param_batch._t"):
+                return [("F",), ("P",)]
+            return None
+
+        def size_role(n, ev, pts=pts):
+            t = dump(n).replace(" ", "")
+            if t in (f"len({pts})", f"{pts}.as_tensor.shape[0]"):
+                return "N"
+            if t in ("len(self.param_batch)", "self.param_batch.as_tensor.shape[0]"):
+                return "F"
+            return None
+        try:
+            ae = AxesEval(atom, size_role)
+            pa, po = ae.ev(cat.args[0].elts[0]), ae.ev(cat.args[0].elts[1])
+            rep.check(R, pa == [("F",), ("N",), ("P",)] and po == [("F",), ("N",), ("C",)], fi.site(p.ret_node), fi.fq,
+                      "parameter block has axes (function, point, param columns), point block (function, point, coordinates)", f"params {pa}, points {po}", f"{pa}|{po}")
+        except Scrambled as err:
+            rep.violation(R, fi.site(p.ret_node), fi.fq, "parameter row i is paired with every point", str(err), str(err)[:200])
+        except NotAxes as err:
+            rep.undecided(R, fi.site(p.ret_node), fi.fq, "replication decidable by the axis-role interpreter", str(err))
         order_ok = dump(sp).replace(" ", "") == f"self.param_batch.space*{pts}.space"
-        rep.check(R, a in (par, par_alt) and b == pnt, fi.site(p.ret_node), fi.fq, "params[i] repeated along axis 1 (points), points repeated along axis 0 (functions)", f"{a[:80]} | {b[:80]}", f"{a}|{b}")
         rep.check(R, order_ok, fi.site(p.ret_node), fi.fq, "space = param space * point space (same order as the concatenation)", dump(sp), dump(sp))
 
 
